@@ -524,6 +524,9 @@ func (o *operation) handle() {
 	reqMsg := message{
 		sameCompression: sameRequestCompression,
 		sameCodec:       sameRequestCodec,
+		// A protocol without envelopes declares compression for the whole body,
+		// so a message whose envelope said "not compressed" must be compressed.
+		forceCompress: o.serverEnveloper == nil && o.server.reqCompression != nil,
 	}
 
 	if mustDecodeRequest {
@@ -592,7 +595,8 @@ func (o *operation) handle() {
 	case skipBody:
 		// drain any contents of body so downstream handler sees empty
 		o.drainBody(o.request.Body)
-	case sameRequestCompression && sameRequestCodec && !mustDecodeRequest:
+	case sameRequestCompression && sameRequestCodec && !mustDecodeRequest &&
+		!(o.clientEnveloper != nil && reqMsg.forceCompress):
 		// we do not need to decompress or decode; just transforming envelopes
 		o.request.Body = &envelopingReader{rw: rw, r: o.request.Body}
 	default:
@@ -1057,6 +1061,10 @@ type responseWriter struct {
 	endWritten bool
 	// receives header writes made by the handler after endWritten
 	discardedHeader http.Header
+	// set when a response message arrived with its envelope's compressed bit
+	// unset and the client's protocol has no envelopes: the body is then not
+	// compressed, whatever compression the backend negotiated for the stream
+	respBodyUncompressed bool
 	respMeta   *responseMeta
 	err        error
 	// wraps op.writer; initialized after headers are written
@@ -1282,6 +1290,9 @@ func (w *responseWriter) flushHeaders() {
 	cliRespMeta := *w.respMeta
 	cliRespMeta.codec = w.op.client.codec.Name()
 	cliRespMeta.compression = w.op.client.respCompression.Name()
+	if w.respBodyUncompressed {
+		cliRespMeta.compression = ""
+	}
 	cliRespMeta.acceptCompression = w.op.compressors.intersection(w.respMeta.acceptCompression)
 	statusCode := w.op.client.protocol.addProtocolResponseHeaders(cliRespMeta, w.Header())
 	hasErr := w.respMeta.end != nil && w.respMeta.end.err != nil
@@ -1481,6 +1492,8 @@ func (w *envelopingWriter) handleEnvelopeWritten() error {
 			w.err = err
 			return err
 		}
+	} else if !env.compressed {
+		w.rw.respBodyUncompressed = true
 	}
 	w.current = w.w
 	w.remainingBytes = int(env.length)
@@ -1754,6 +1767,9 @@ func (w *transformingWriter) flushMessage() error {
 		return err
 	}
 	buffer := w.msg.sendBuffer()
+	if w.rw.op.clientEnveloper == nil && !w.msg.wasCompressed {
+		w.rw.respBodyUncompressed = true
+	}
 	if enveloper := w.rw.op.clientEnveloper; enveloper != nil {
 		length := buffer.Len()
 		if limit := int(w.rw.op.methodConf.maxMsgBufferBytes); length > limit {
@@ -1956,6 +1972,9 @@ type message struct {
 	// wasCompressed is true if the data was originally compressed; this can
 	// be false in a stream when the stream envelope's compressed bit is unset.
 	wasCompressed bool
+	// forceCompress is true if the data must be sent compressed even when it
+	// was not originally compressed (the destination has no per-message flag).
+	forceCompress bool
 	// original size of the message on the wire, in bytes
 	size int
 
@@ -2021,6 +2040,11 @@ func (m *message) advanceToStage(op *operation, newStage messageStage) error {
 	// Fast path: stageRead only, buffer still in original encoding.
 	if m.stage == stageRead && newStage == stageSend && m.sameCodec &&
 		(!m.wasCompressed || m.sameCompression) {
+		if m.forceCompress && !m.wasCompressed {
+			if err := m.compress(op); err != nil {
+				return err
+			}
+		}
 		m.stage = newStage
 		return nil
 	}
@@ -2056,7 +2080,7 @@ func (m *message) advanceToStage(op *operation, newStage messageStage) error {
 				return err
 			}
 		}
-		if m.wasCompressed {
+		if m.wasCompressed || m.forceCompress {
 			if err := m.compress(op); err != nil {
 				return err
 			}
